@@ -11,12 +11,13 @@ def run(chk):
     names = list(mutworker.FILTER_DOCS)
     jobs = [dict(prop='C12', canary=True, docs=['canary'])]
     for i in range(0, len(names), 1 if not quick else 2):
-        jobs.append(dict(prop='C12', docs=names[i:i + (1 if not quick else 2)], filter=True, timeout=200 if quick else 900, no_unicode_digits=quick))
+        jobs.append(dict(prop='C12', docs=names[i:i + (1 if not quick else 2)], filter=True, timeout=200 if quick else 900, no_unicode_digits=quick,
+                         stride=2 if quick else 1, phase=0, nparts=1, part=0))
     if chk.only:
         jobs = [j for j in jobs if chk.only in ','.join(j['docs'])]
     from .. import c12audit
     chk.bounds = dict(filters=sorted('%s=%s' % kv for kv in mutworker.FILTER_DOCS.items()),
-                      mutation='one symbolic code point replacing / inserted at every position (string, URI, reference name and display, XStr type and payload, unit, zone, tag-name, operator and keyword positions)',
+                      mutation='one symbolic code point replacing / inserted at every second (quick) / every (thorough) position (string, URI, reference name and display, XStr type and payload, unit, zone, tag-name, operator and keyword positions)',
                       canary_filters=len(c12audit.CANARY_FILTERS))
     chk.assumptions = ['safety of the generated source is syntactic: a single def whose return expression uses only boolean operators, comparisons, hszinc\'s own helper names, the function parameters, constants, constant subscripts and lists of constants (vf/c12audit.source_problem)',
                        'the generated text is checked after concretising its symbolic characters: exhaustively for small domains (tag-name characters), on sampled representatives otherwise (counted)',
